@@ -197,6 +197,25 @@ pub mod verif_h2 {
     }
 }
 
+/// Verification hook (add-only, compiled only with `--cfg sozu_verif`):
+/// re-exports the crate-private H2<->kawa header conversion entry points so an
+/// out-of-tree harness can push header lists through them in-process. No
+/// production code path uses this module.
+#[cfg(sozu_verif)]
+pub mod verif_hdr {
+    pub use super::converter::H2BlockConverter;
+    pub use super::h2::Prioriser;
+    pub use super::pkawa::{handle_header, handle_trailer};
+
+    /// `shared::apply_response_header_edits` (per-frontend response edits, HSTS).
+    pub fn apply_response_header_edits(
+        kawa: &mut super::GenericHttpStream,
+        edits: &[crate::protocol::http::editor::HeaderEditSnapshot],
+    ) {
+        super::shared::apply_response_header_edits(kawa, edits)
+    }
+}
+
 use crate::metrics::names;
 use crate::{
     BackendConnectionError, FrontendFromRequestError, L7ListenerHandler, L7Proxy, ListenerHandler,
